@@ -6,11 +6,13 @@ against live values on the explored scope (DESIGN 2.3).
 from pyvc.registry import cls, module_global
 from pyvc.engine import ghost
 from pyvc.externals import NpList
-from pyvc.sorts import BOOL, IDS, INT, REAL, STR, Enum, List, NList, NRef, Opaque, Opt, Ref
+from pyvc.sorts import BOOL, IDS, INT, REAL, STR, Enum, List, NList, NRef, Opaque, Opt, Ref, StrEnum
 from pyvc.specs import enum, ufunc
 import pyvc.registry as R
 
 BT = Enum("BondType")
+# class invariant of BondDescriptor (established by __init__, checked by the monitor): descriptor is one of these
+SYM = StrEnum("Symbol", "", "$", "<", ">")
 # rdkit.Chem.rdchem.BondType values used by the repository (int(BondType.X))
 enum("BT", UNSPECIFIED=0, SINGLE=1, DOUBLE=2, TRIPLE=3, QUADRUPLE=4, ONEANDAHALF=7)
 
@@ -19,7 +21,7 @@ cls("BigSMILESbase", "core")
 R.CLASSES["BigSMILESbase"]["abstract"] = True
 
 cls("BondDescriptor", "bond", bases=["BigSMILESbase"],
-    _raw_text=STR, descriptor=STR, descriptor_id=IDS, descriptor_num=INT, weight=REAL,
+    _raw_text=STR, descriptor=SYM, descriptor_id=IDS, descriptor_num=INT, weight=REAL,
     transitions=("list", REAL, True, "np"), preceding_characters=STR, bond_type=BT, bond_stereo=Enum("BondStereo"),
     atom_bonding_to=Opt(INT), node_idx=INT)
 
@@ -64,7 +66,9 @@ GENERATOR = Opaque("Generator")
 # ghost state (DESIGN 2.4)
 ghost("choices", INT)                        # number of rng.choice calls so far
 ghost("last_p", ("map", INT, REAL))          # probability vector handed to the last rng.choice
+ghost("last_cand", ("map", INT, INT))     # candidate values handed to the last rng.choice
 ghost("last_n", INT)                         # its length
+ghost("last_norm", REAL)                     # common divisor of the last probability vector (witness of proportionality)
 ghost("last_pick", INT)                      # index picked
 ghost("last_rng", GENERATOR)                 # generator object used
 ghost("draws", INT)                          # number of draw_mw calls
